@@ -187,9 +187,11 @@ func parkedIn(fn, file string) bool {
 
 // settle polls fn (a goroutine census) until it returns 0 or the budget is used; goroutines end a moment after the
 // channel that announces their end is closed.
-func settle(fn func() int) int {
+func settle(fn func() int) int { return settleN(200, fn) }
+
+func settleN(max int, fn func() int) int {
 	n := fn()
-	for i := 0; n != 0 && i < 200; i++ {
+	for i := 0; n != 0 && i < max; i++ {
 		runtime.Gosched()
 		if i > 20 {
 			time.Sleep(time.Millisecond)
